@@ -40,7 +40,7 @@ def gen_feature(rng, kind, n):
         elif r < 0.12:
             # ints a double cannot hold exactly, but far enough apart to round to distinct doubles (adjacent integers
             # above 2^53 share one double, hence one interval label: documented as out of scope in DESIGN.md)
-            vals = [2 ** 53 + 4 * rng.randint(0, 40) + 1 for _ in range(n)]
+            vals = [2 ** 53 + 4 * rng.randint(0, 40) + rng.choice([1, 3]) for _ in range(n)]      # odd: rounds to the double below (…1) or above (…3)
             nan_rate = 0
         elif r < 0.18:
             vals = [float(np.float32(v)) for v in vals]; extra = "float32"
@@ -316,7 +316,7 @@ def _target_ok(ds):
 def gen_config(rng, target):
     cfg = dict(min_freq=rng.choice(MIN_FREQS), max_n_mod=rng.choice([2, 3, 3, 4, 5]),
                dropna=rng.random() < 0.6, output_dtype=rng.choice(["str", "float"]),
-               min_freq_mod=rng.choice([None, None, 0.05, 0.1, 0.2]))
+               min_freq_mod=rng.choice([None, None, 0.05, 0.1, 0.2, 0]))      # 0: an explicit "no minimum" (falsy, not None)
     if target != "continuous":
         cfg["sort_by"] = rng.choice(["tschuprowt", "cramerv"])
     # user-chosen markers for missing / default values (`**kwargs` of every class), 15% of the configurations
